@@ -934,11 +934,11 @@ package rewriter
 //@   -- go/parser: parameter fields and their names are non-nil nodes (WfAst)
 //@   requires forall j: Int :: 0 <= j && j < len(paramsFields) ==> paramsFields[j] != nil
 //@   requires forall j: Int :: forall k: Int :: 0 <= j && j < len(paramsFields) && 0 <= k && k < len(paramsFields[j].Names) ==> paramsFields[j].Names[k] != nil
-//@   loop #0 invariant forall j: Int :: 0 <= j && j < len(args) ==> args[j] != nil
-//@   loop #1 invariant (forall j: Int :: 0 <= j && j < len(args) ==> args[j] != nil) && (forall j: Int :: 0 <= j && j < len(params) ==> params[j] != nil)
-//@   loop #2 invariant (forall j: Int :: 0 <= j && j < len(args) ==> args[j] != nil) && (forall j: Int :: 0 <= j && j < len(params) ==> params[j] != nil)
-//@   loop #3 invariant (forall j: Int :: 0 <= j && j < len(args) ==> args[j] != nil) && (forall j: Int :: 0 <= j && j < len(params) ==> params[j] != nil) && len(args) == len(params)
-//@   loop #3 invariant forall j: Int :: 0 <= j && j < _idx ==> args[j].Name == params[j].Name && objectOf(args[j]) == objectOf(params[j])
+//@   loop #0 over argsExprs invariant forall j: Int :: 0 <= j && j < len(args) ==> args[j] != nil
+//@   loop #1 over paramsFields invariant (forall j: Int :: 0 <= j && j < len(args) ==> args[j] != nil) && (forall j: Int :: 0 <= j && j < len(params) ==> params[j] != nil)
+//@   loop #2 over paramGroup.Names invariant (forall j: Int :: 0 <= j && j < len(args) ==> args[j] != nil) && (forall j: Int :: 0 <= j && j < len(params) ==> params[j] != nil)
+//@   loop #3 over args invariant (forall j: Int :: 0 <= j && j < len(args) ==> args[j] != nil) && (forall j: Int :: 0 <= j && j < len(params) ==> params[j] != nil) && len(args) == len(params)
+//@   loop #3 over args invariant forall j: Int :: 0 <= j && j < _idx ==> args[j].Name == params[j].Name && objectOf(args[j]) == objectOf(params[j])
 //@   ensures[local:positional] ok ==> len(args) == len(params) && (forall j: Int :: 0 <= j && j < len(args) ==> args[j].Name == params[j].Name && objectOf(args[j]) == objectOf(params[j]))
 
 //@ pred IsGenericFuncObj(o types.Object) := IsSignature(funcType(ptr(o))) && tplLen(sigTParams(ptr(funcType(ptr(o))))) > 0
